@@ -138,6 +138,7 @@ type c03case struct {
 	rev     int
 	cb      cbSet
 	schema  int
+	pre     string // history of the client: "" fresh, "exception" / "ok" = outcome of an earlier query on it
 }
 
 func (k c03case) id() string {
@@ -145,7 +146,11 @@ func (k c03case) id() string {
 	for _, p := range k.script {
 		syms = append(syms, p.sym)
 	}
-	return fmt.Sprintf("%s/lz4=%v/%s/rev=%d/cb=%s/fail=%s/schema=%d", strings.Join(syms, "."), k.lz4, k.binding, k.rev, k.cb.have, k.cb.fail, k.schema)
+	id := fmt.Sprintf("%s/lz4=%v/%s/rev=%d/cb=%s/fail=%s/schema=%d", strings.Join(syms, "."), k.lz4, k.binding, k.rev, k.cb.have, k.cb.fail, k.schema)
+	if k.pre != "" {
+		id += "/pre=" + k.pre
+	}
+	return id
 }
 
 // expected runs the reference interpreter of the receive loop's specified behaviour.
@@ -263,6 +268,9 @@ func body03seg(k c03case, sg seg, prop string) Body {
 			return Outcome{Key: prop + "/handshake-failed", Detail: err.Error()}
 		}
 		defer vsched.Quiet(func() { _ = c.C.Close() })
+		if msg := c.Prelude(k.pre); msg != "" {
+			return Outcome{Key: prop + "/prelude-failed", Detail: msg}
+		}
 		var trace []string
 		var typed proto.Results
 		if k.schema == 0 {
@@ -450,7 +458,7 @@ func body03seg(k c03case, sg seg, prop string) Body {
 
 // C03 — results, telemetry and exceptions are delivered exactly once, in order.
 func C03(c *vk.Ctx) {
-	c.Rule("all server scripts of length <= n (quick 3, thorough 4) over the 15-symbol alphabet {Data header / 1 row / 3 rows / 3 other rows, empty end block, Totals, Progress, Profile, ProfileEvents 2 / 0 rows, Log 2 rows, TableColumns, Exception depth 1 / 3, EndOfStream} followed by EndOfStream, x {plain, LZ4} x {typed, Auto, no} result binding x two block schemas ((UInt64, String) and (LowCardinality(String), Array(UInt64), Nullable(String))) with every callback present, at the newest revision; plus all scripts of length <= 2 (thorough 3) x revisions on both sides of every packet-affecting threshold x callback sets {all, none, each alone, deprecated per-item}; plus scripts of length <= 2 x each callback failing. Every case is one execution of the real Connect + Do against the reference peer (default schedule); oracle = a reference interpreter of the specified receive loop. distinct_nontrivial = cases.")
+	c.Rule("all server scripts of length <= n (quick 3, thorough 4) over the 15-symbol alphabet {Data header / 1 row / 3 rows / 3 other rows, empty end block, Totals, Progress, Profile, ProfileEvents 2 / 0 rows, Log 2 rows, TableColumns, Exception depth 1 / 3, EndOfStream} followed by EndOfStream, x {plain, LZ4} x {typed, Auto, no} result binding x two block schemas ((UInt64, String) and (LowCardinality(String), Array(UInt64), Nullable(String))) with every callback present, at the newest revision; plus all scripts of length <= 2 (thorough 3) x revisions on both sides of every packet-affecting threshold x callback sets {all, none, each alone, deprecated per-item}; plus scripts of length <= 2 x each callback failing; plus scripts of length <= 2 on a client whose previous query ended with a server exception or ended well. Every case is one execution of the real Connect + Do against the reference peer (default schedule); oracle = a reference interpreter of the specified receive loop. distinct_nontrivial = cases.")
 	quick := c.Quick()
 	maxLen, maxLenRev := 3, 2
 	if !quick {
@@ -531,6 +539,14 @@ func C03(c *vk.Ctx) {
 		for _, f := range []string{"R", "P", "F", "E", "L"} {
 			for _, lz4 := range []bool{false, true} {
 				run(c03case{script: s, lz4: lz4, binding: "typed", rev: ServerRev, cb: cbSet{have: "RPFEL", fail: f}}, "failing callback")
+			}
+		}
+	})
+	// partition 4: the same on a client with a history
+	scripts(2, func(s []pk) {
+		for _, pre := range []string{"exception", "ok"} {
+			for _, lz4 := range []bool{false, true} {
+				run(c03case{script: s, lz4: lz4, binding: "typed", rev: ServerRev, cb: cbSet{have: "RPFEL"}, pre: pre}, "client with a history")
 			}
 		}
 	})
